@@ -244,3 +244,7 @@ PROG += [
     (_cls(lambda P, K: lints.keyerror_on_defaultdict(K)), "from collections import defaultdict\nclass D:\n    def __init__(self):\n        self._dict = defaultdict(list)\n    def render(self, key):\n        try:\n            items = self._dict[key]\n        except KeyError:\n            items = self._globals\n        return items\n",
      "from collections import defaultdict\nclass D:\n    def __init__(self):\n        self._dict = defaultdict(list)\n    def render(self, key):\n        items = self._dict.get(key)\n        if items is None:\n            items = self._globals\n        return items\n"),
 ]
+
+FN += [
+    (lints.copyfileobj_length_confusion, "import shutil\ndef f(src, dst, start):\n    shutil.copyfileobj(src, dst, start)\n", "def f(src, dst, start):\n    dst.write(src.read(start))\n"),
+]
